@@ -31,10 +31,12 @@ type CaseC09 struct {
 type PlantC09 struct {
 	At   int    `json:"at"`   // inserted before this line index (0-based) of the current text
 	Text string `json:"text"` // raw line without the line terminator
+	// Legal: the line is well formed (a very long comment or note): it only has to be counted as one line
+	Legal bool `json:"legal,omitempty"`
 }
 
 var plantNames = []string{"oats", "x", "сирене", "rice/white", "a_b", "milk/2%", "50%s"}
-var plantBadValues = []string{"abc", "12g", "1,5", "1..2", "--", "1e", "0x", "twelve", "2%", "%d"}
+var plantBadValues = []string{"abc", "12g", "1,5", "1..2", "--", "1e", "0x", "twelve", "2%", "%d", "+", "+.", ".", "e5", "+-1", "1_0_", "0b", "١٢"}
 
 func genC09(thorough bool) func(t *rapid.T) Case {
 	return func(t *rapid.T) Case {
@@ -58,6 +60,17 @@ func genC09(thorough bool) func(t *rapid.T) Case {
 		}
 		lines := splitLines(render(blocks, ly), ly.EOL)
 		first := firstHeadingLine(lines)
+		if rapid.IntRange(0, 3).Draw(t, "long_legal_line") == 3 {
+			// a legal line longer than the scanner's 4096-byte initial buffer, somewhere before the end
+			n := rapid.SampledFrom([]int{4096, 5000, 8192, 9000, 20000}).Draw(t, "long_legal_len")
+			at := rapid.IntRange(first+1, len(lines)).Draw(t, "long_legal_at")
+			text := "# " + strings.Repeat("L", n-2)
+			if rapid.Bool().Draw(t, "long_legal_note") {
+				text = "  # note: " + strings.Repeat("N", n)
+			}
+			c.Plants = append(c.Plants, PlantC09{At: at, Text: text, Legal: true})
+			lines = append(lines[:at:at], append([]string{text}, lines[at:]...)...)
+		}
 		k := rapid.IntRange(0, 3).Draw(t, "n_plants")
 		for i := 0; i < k; i++ {
 			at := rapid.IntRange(first+1, len(lines)).Draw(t, fmt.Sprintf("p%d_at", i))
@@ -121,7 +134,7 @@ func (c *CaseC09) corrupted() (string, []int, []string) {
 			at = f + 1 // an indented line before any heading belongs to no record
 		}
 		lines = append(lines[:at:at], append([]string{p.Text}, lines[at:]...)...)
-		planted = append(planted[:at:at], append([]bool{true}, planted[at:]...)...)
+		planted = append(planted[:at:at], append([]bool{!p.Legal}, planted[at:]...)...)
 	}
 	var nums []int
 	var texts []string
@@ -159,7 +172,11 @@ func (c *CaseC09) Eval(ob *Obs) []Finding {
 		w := b.world()
 		fi := fileIdx(&w, path)
 		w.Files[fi].Data = text
-		w.Files[fi].Plan = ReadPlan{Chunk: c.Chunk, ChunkSeed: c.ChunkSeed, MaxChunk: c.MaxChunk, FaultAt: -1}
+		chunk := c.Chunk
+		if chunk == "one" && len(text) > 6000 {
+			chunk = "seeded" // byte-by-byte delivery of a long file costs more than it finds
+		}
+		w.Files[fi].Plan = ReadPlan{Chunk: chunk, ChunkSeed: c.ChunkSeed, MaxChunk: c.MaxChunk, FaultAt: -1}
 		return w
 	}
 	ob.nontrivial(hashOf(c.Base) + hashOf(c.Plants))
